@@ -235,6 +235,12 @@ func validateExpiration(str string, date time.Time) error {
 	now := time.Now()
 	passed := int(now.Sub(date).Seconds())
 
+	// a url dated in the future (beyond the clock skew that header
+	// authentication tolerates) is not valid yet
+	if passed < -15*60 {
+		return s3err.GetAPIError(s3err.ErrRequestNotReadyYet)
+	}
+
 	if passed > exp {
 		return s3err.GetAPIError(s3err.ErrExpiredPresignRequest)
 	}
